@@ -63,12 +63,12 @@ func init() {
 		for i := range outs {
 			outs[i] = make([]float64, length)
 		}
-		ev := sacEvents{-1, -1, -1}
+		ev := sacEvents{-1, -1, -1, -1}
 		s0, s1, s2, s3, s4, s5 := sacTrace(rain, pet, ss[0], ss[1], ss[2], ss[3], ss[4], ss[5],
 			ps[0], ps[1], ps[2], ps[3], ps[4], ps[5], ps[6], ps[7], ps[8], ps[9], ps[10], ps[11], ps[12], ps[13],
 			ps[14], ps[15], ps[16], ps[17], ps[18], ps[19], ps[20], ps[21],
 			outs[0], outs[1], outs[2], outs[3], outs[4], &ev)
-		fmt.Fprintf(w, "OK E %d %d %d O 5 %d", ev.ratioNeg, ev.adimcOver, ev.fracpOver, length)
+		fmt.Fprintf(w, "OK E %d %d %d %d O 5 %d", ev.ratioNeg, ev.adimcOver, ev.fracpOver, ev.preGuard, length)
 		for i := 0; i < 5; i++ {
 			for j := 0; j < length; j++ {
 				w.WriteByte(' ')
